@@ -17,18 +17,24 @@ STATE = [A, "self._history", "self.context", "self.status", "self.output", "self
 
 
 def register(w):
+    # the configuration and the recorded history hold states (never None): an invariant of every interpreter routine
+    w.macro("wf_state", ["A_", "H_"],
+            "forall[Node](lambda n: implies(n in A_, n != None))"
+            " and forall[str, int](lambda k, i: implies(k in H_ and 0 <= i and i < len(H_[k]), H_[k][i] != None))")
     w.macro("queue_inv", ["q", "acc", "rem"],
             "len(acc) == len(rem) + len(q)"
             " and forall[int](lambda i: implies(0 <= i and i < len(rem), acc[i] == rem[i]))"
             " and forall[int](lambda i: implies(0 <= i and i < len(q), q[i] == acc[len(rem) + i]), lambda i: q[i])"
-            " and forall[int](lambda j: implies(len(rem) <= j and j < len(acc), acc[j] == q[j - len(rem)]), lambda j: acc[j])")
+            " and forall[int](lambda j: implies(len(rem) <= j and j < len(acc), acc[j] == q[j - len(rem)]), lambda j: acc[j])"
+            " and forall[int](lambda i: implies(0 <= i and i < len(q), q[i] != None), lambda i: q[i])")
     # what processing one event may do to the queue: append-only, and every appended event is accepted
     w.macro("appended_only", ["q0", "acc0", "q1", "acc1"],
             "len(q1) >= len(q0) and len(acc1) - len(acc0) == len(q1) - len(q0)"
             " and forall[int](lambda i: implies(0 <= i and i < len(q0), q1[i] == q0[i]))"
             " and forall[int](lambda i: implies(0 <= i and i < len(acc0), acc1[i] == acc0[i]))"
             " and forall[int](lambda j: implies(len(q0) <= j and j < len(q1), q1[j] == acc1[j - len(q0) + len(acc0)]), lambda j: q1[j])"
-            " and forall[int](lambda j: implies(len(acc0) <= j and j < len(acc1), acc1[j] == q1[j - len(acc0) + len(q0)]), lambda j: acc1[j])")
+            " and forall[int](lambda j: implies(len(acc0) <= j and j < len(acc1), acc1[j] == q1[j - len(acc0) + len(q0)]), lambda j: acc1[j])"
+            " and forall[int](lambda j: implies(len(q0) <= j and j < len(q1), q1[j] != None), lambda j: q1[j])")
 
     @w.contract(BI + "_prepare_event", props=["C04"])
     def _(c):
@@ -42,16 +48,17 @@ def register(w):
         c.trusted = ("assumed here (bounded: C01/C13 drivers): settles always-transitions; like _process_event it reaches the queue only "
                      "through send() - append-only while _is_processing is set - and keeps the configuration legal")
         c.no_runtime = True
-        c.mod(*STATE, Q, ACC)
-        c.req(f"legal({A})", "self._is_processing")
-        c.ens(f"legal({A})", f"appended_only(old({Q}), old({ACC}), {Q}, {ACC})", "status_reach(old(self.status), self.status)")
-        c.may_raise("Exception", ensures=[f"legal({A})", f"appended_only(old({Q}), old({ACC}), {Q}, {ACC})", "status_reach(old(self.status), self.status)"])
+        c.mod(*STATE, Q, ACC, "Flag.is_set", "Trans.target_str")
+        c.req(f"legal({A})", "self._is_processing", f"wf_state({A}, self._history)")
+        c.ens(f"legal({A})", f"appended_only(old({Q}), old({ACC}), {Q}, {ACC})", "status_reach(old(self.status), self.status)", f"wf_state({A}, self._history)")
+        c.may_raise("Exception", ensures=[f"legal({A})", f"appended_only(old({Q}), old({ACC}), {Q}, {ACC})", "status_reach(old(self.status), self.status)", f"wf_state({A}, self._history)"])
 
     @w.contract(SI + "_process_event_queue", props=["C04", "C13", "C14", "C01"])
     def _(c):
         c.no_runtime = True
-        c.mod(*STATE, Q, ACC, REM, "self.g_ndiscarded", "self._is_processing")
-        c.req(f"queue_inv({Q}, {ACC}, {REM})", f"implies(not self._is_processing, legal({A}))", "root.max_iterations >= 0")
+        c.mod(*STATE, Q, ACC, REM, "self.g_ndiscarded", "self._is_processing", "Flag.is_set", "Trans.target_str")
+        c.req(f"queue_inv({Q}, {ACC}, {REM})", f"implies(not self._is_processing, legal({A}))", "root.max_iterations >= 0", f"wf_state({A}, self._history)")
+        c.ens(f"wf_state({A}, self._history)", label="configuration-and-history-hold-states")
         # re-entrant call (an action sent an event while another is in flight): nothing happens now
         c.ens(f"implies(old(self._is_processing), seq_eq({Q}, old({Q})) and seq_eq({REM}, old({REM})) and set_eq({A}, old({A})) and self.status == old(self.status) and self._is_processing)",
               label="re-entrant-call-is-deferred")
@@ -66,7 +73,8 @@ def register(w):
         c.ghost("limit_hit", BOOL, init="False")
         c.ens("implies(not final_limit_hit, self.g_ndiscarded == old(self.g_ndiscarded))", label="no-accepted-event-is-discarded")
         c.may_raise("Exception", ensures=["status_reach(old(self.status), self.status)", f"queue_inv({Q}, {ACC}, {REM})", "not self._is_processing", f"legal({A})",
-                                          "implies(not final_limit_hit, self.g_ndiscarded == old(self.g_ndiscarded))", f"len({ACC}) >= len(old({ACC})) and forall[int](lambda i: implies(0 <= i and i < len(old({ACC})), {ACC}[i] == old({ACC})[i]), lambda i: {ACC}[i])"])
+                                          "implies(not final_limit_hit, self.g_ndiscarded == old(self.g_ndiscarded))", f"len({ACC}) >= len(old({ACC})) and forall[int](lambda i: implies(0 <= i and i < len(old({ACC})), {ACC}[i] == old({ACC})[i]), lambda i: {ACC}[i])",
+                                          f"wf_state({A}, self._history)"])
         c.after("current_event = self._event_queue.popleft()", f"{REM} = append({REM}, current_event)",
                 f"assert queue_inv({Q}, {ACC}, {REM})")
         c.after("self._process_event(current_event)", f"assert queue_inv({Q}, {ACC}, {REM})")
@@ -80,19 +88,20 @@ def register(w):
                      f"{REM} = cat({REM}, {Q})")
         c.before = {}
         c.loop(0, inv=[
-            f"queue_inv({Q}, {ACC}, {REM})", f"legal({A})", "self._is_processing", "processed >= 0",
+            f"queue_inv({Q}, {ACC}, {REM})", f"legal({A})", f"wf_state({A}, self._history)", "self._is_processing", "processed >= 0",
             "limit == root.max_iterations", "not limit_hit", "status_reach(old(self.status), self.status)", "self.g_ndiscarded == old(self.g_ndiscarded)",
             f"len({ACC}) >= len(old({ACC})) and forall[int](lambda i: implies(0 <= i and i < len(old({ACC})), {ACC}[i] == old({ACC})[i]), lambda i: {ACC}[i])",
         ], decreases="ite(limit - processed + 1 > 0, limit - processed + 1, 0) + len(self._event_queue) * 0")
-        c.loop(1, inv=["status_reach(old(self.status), self.status)", f"queue_inv({Q}, {ACC}, {REM})", f"legal({A})", "self._is_processing", "not limit_hit",
+        c.loop(1, inv=["status_reach(old(self.status), self.status)", f"queue_inv({Q}, {ACC}, {REM})", f"legal({A})", f"wf_state({A}, self._history)", "self._is_processing", "not limit_hit",
                        "self.g_ndiscarded == old(self.g_ndiscarded)", f"len({ACC}) >= len(old({ACC})) and forall[int](lambda i: implies(0 <= i and i < len(old({ACC})), {ACC}[i] == old({ACC})[i]), lambda i: {ACC}[i])"])
 
     @w.contract(SI + "send", props=["C04", "C14", "C01"])
     def _(c):
         c.no_runtime = True
         c.param("event_or_type", OPAQUE)
-        c.mod(*STATE, Q, ACC, REM, "self.g_ndiscarded", "self._is_processing")
-        c.req(f"queue_inv({Q}, {ACC}, {REM})", f"implies(not self._is_processing, legal({A}))", "root.max_iterations >= 0")
+        c.mod(*STATE, Q, ACC, REM, "self.g_ndiscarded", "self._is_processing", "Flag.is_set", "Trans.target_str")
+        c.req(f"queue_inv({Q}, {ACC}, {REM})", f"implies(not self._is_processing, legal({A}))", "root.max_iterations >= 0", f"wf_state({A}, self._history)")
+        c.ens(f"wf_state({A}, self._history)", label="configuration-and-history-hold-states")
         c.ens(f"implies(old(self.status) != 'running', seq_eq({Q}, old({Q})) and seq_eq({ACC}, old({ACC})) and set_eq({A}, old({A})) and self.status == old(self.status) and self._is_processing == old(self._is_processing))",
               label="send-on-non-running-interpreter-changes-and-queues-nothing")
         c.ens(f"queue_inv({Q}, {ACC}, {REM})", label="fifo-nothing-lost-or-duplicated-in-the-queue")
@@ -101,7 +110,7 @@ def register(w):
         c.ens(f"implies(old(self.status) == 'running' and old(self._is_processing), len({Q}) == len(old({Q})) + 1 and set_eq({A}, old({A})))",
               label="event-sent-during-processing-is-queued-not-run-re-entrantly")
         c.ens(f"implies(not old(self._is_processing), not self._is_processing and legal({A}))", label="legal-configuration-when-send-returns")
-        c.may_raise("Exception", ensures=[f"queue_inv({Q}, {ACC}, {REM})", f"implies(not old(self._is_processing), not self._is_processing and legal({A}))"])
+        c.may_raise("Exception", ensures=[f"queue_inv({Q}, {ACC}, {REM})", f"implies(not old(self._is_processing), not self._is_processing and legal({A}))", f"wf_state({A}, self._history)"])
         c.after("self._event_queue.append(event_obj)", f"{ACC} = append({ACC}, event_obj)",
                 f"assert queue_inv({Q}, {ACC}, {REM})",
                 f"assert forall[int](lambda i: implies(0 <= i and i < len(old({ACC})), {ACC}[i] == old({ACC})[i]))")
@@ -115,18 +124,22 @@ def register(w):
         c.no_runtime = True
         c.param("states_to_enter", ListSort(Node)).param("event", Ev)
         c.defaults = {"event": "None"}
-        c.mod(*STATE, Q, ACC)
+        c.mod(*STATE, Q, ACC, "Flag.is_set")
         c.ens(f"implies(len(states_to_enter) == 1 and states_to_enter[0] == root and forall[Node](lambda n: not (n in old({A}))), legal({A}))")
         c.ens(f"appended_only(old({Q}), old({ACC}), {Q}, {ACC})", label="ghost:queue-append-only")
         c.ens("status_reach(old(self.status), self.status)")
-        c.may_raise("Exception", ensures=[f"ghost:appended_only(old({Q}), old({ACC}), {Q}, {ACC})", "status_reach(old(self.status), self.status)"])
+        HWF = "forall[str, int](lambda k, i: implies(k in self._history and 0 <= i and i < len(self._history[k]), self._history[k][i] != None))"
+        c.ens(f"implies(forall[int](lambda i: implies(0 <= i and i < len(states_to_enter), states_to_enter[i] != None)) and forall[Node](lambda n: implies(n in old({A}), n != None)), forall[Node](lambda n: implies(n in {A}, n != None)))")
+        c.ens(f"implies(old({HWF}), {HWF})")
+        c.may_raise("Exception", ensures=[f"ghost:appended_only(old({Q}), old({ACC}), {Q}, {ACC})", "status_reach(old(self.status), self.status)", f"implies(old({HWF}), {HWF})"])
 
     @w.contract(SI + "start", props=["C14", "C04", "C01"])
     def _(c):
         c.no_runtime = True
         c.returns(w.self_sort)
-        c.mod(*STATE, Q, ACC, REM, "self.g_ndiscarded", "self._is_processing")
-        c.req("valid_status(self.status)", f"queue_inv({Q}, {ACC}, {REM})", "root.max_iterations >= 0", "not self._is_processing",
+        c.mod(*STATE, Q, ACC, REM, "self.g_ndiscarded", "self._is_processing", "Flag.is_set", "Trans.target_str")
+        c.ens(f"wf_state({A}, self._history)", label="configuration-and-history-hold-states")
+        c.req("valid_status(self.status)", f"queue_inv({Q}, {ACC}, {REM})", "root.max_iterations >= 0", "not self._is_processing", f"wf_state({A}, self._history)",
               f"implies(self.status == 'uninitialized', forall[Node](lambda n: not (n in {A})))",
               f"implies(self.status == 'running', legal({A}))")
         c.label_props = {"_process_transient_transitions#1": ["C04"]}
